@@ -259,6 +259,10 @@ pub struct SchedSpec {
     /// at or after `from_step`; it then lasts `to_step - from_step` steps.
     #[serde(default, skip_serializing_if = "std::ops::Not::not")]
     pub starve_in_sync: bool,
+    /// (on, off): inside the starvation window the thread is starved for `on` steps, then
+    /// eligible for `off` steps, and so on (a slow thread rather than a stopped one).
+    #[serde(default, skip_serializing_if = "Option::is_none")]
+    pub starve_stutter: Option<(usize, usize)>,
     pub budget: usize,
 }
 
